@@ -225,7 +225,7 @@ def c03(prop, tier, seed, wd, explore, limit, kinds, we):
 def c04(prop, tier, seed, wd, explore, limit, kinds, we):
     def kp(kind, r, S):
         if kind in FC:   # small buckets so that ranges start/end at every in-bucket offset
-            return [(r.choice([2, 3, 4, 5, 8]),), (r.choice([2, 3, 4, 7, 16, 64, len(S) + 1]),)]
+            return [(r.choice([2, 3, 4, 5, 8]),), (r.choice([2, 3, 4, 7, 16, 64, len(S) + 1 if len(S) <= 3000 else 1024]),)]
         return P.param_vectors(kind, r, S, 1)
     cases = P.basic_cases(prop, seed, tier, ops=("locatePrefix", "extractPrefix", "extract"), kinds=PREFIXK, kind_params=kp, per_input_states=1)
     cases += P.boundary_sweep(prop, seed, tier, ("locatePrefix", "extractPrefix"), bsizes=(2, 3, 4))
@@ -256,7 +256,7 @@ def c05(prop, tier, seed, wd, explore, limit, kinds, we):
 def c13(prop, tier, seed, wd, explore, limit, kinds, we):
     def kp(kind, r, S):
         if kind in FC:   # small buckets: scans start at every in-bucket offset; large ones: long runs of internal strings
-            return [(r.choice([2, 3, 4, 5, 6, 7, 8]),), (r.choice([16, 32, 64, len(S) + 1]),)]
+            return [(r.choice([2, 3, 4, 5, 6, 7, 8]),), (r.choice([16, 32, 64, len(S) + 1 if len(S) <= 3000 else 1024]),)]
         return P.param_vectors(kind, r, S, 1)
     cases = P.basic_cases(prop, seed, tier, ops=("extractTable", "extract", "locatePrefix", "extractPrefix", "locateSubstr", "extractSubstr"), kind_params=kp, per_input_states=1)
     cases += P.basic_cases(prop, seed + 7919, tier, ops=("extractTable", "extract", "locatePrefix", "extractPrefix", "locateSubstr", "extractSubstr"), kinds=[k for k in KINDS if k not in FC], per_input_states=1, corner=False)
